@@ -241,10 +241,19 @@ MUTANTS = [
     ("array-of-list-drops-options", {"C06": "A6.optpack"}, [(NW, "        return array_from_args(args, kwargs, *map(array, A))", "        return array_from_args((), {}, *map(array, A))")]),
     ("kron-vjp-reverses-captured-shape-in-place", {"C10": "A10"}, [(NV, "        shape = list(A.shape + B.shape)\n        n = anp.ndim(A)\n        shape[n - 1], shape[n] = shape[n], shape[n - 1]", "        n = anp.ndim(A)\n        orig_A_shape[0], orig_B_shape[0] = orig_B_shape[0], orig_A_shape[0]\n        shape = list(A.shape + B.shape)\n        shape[n - 1], shape[n] = shape[n], shape[n - 1]")]),
     ("jvp-node-unboxes-answer", {"C08": "A2.slot"}, [(CO, "        self.g = jvpmaker(parent_argnums, parent_gs, value, args, kwargs)", "        self.g = jvpmaker(parent_argnums, parent_gs, getval(value), args, kwargs)")]),
+    ("det-vjp-sums-cotangent-over-the-stack", {"C01": "A3.batch"}, [(LA, "defvjp(det, lambda ans, x: lambda g: add2d(g) * add2d(ans) * T(inv(x)))", "defvjp(det, lambda ans, x: lambda g: anp.sum(g) * add2d(ans) * T(inv(x)))")]),
+    ("dict-space-equality-by-shape-only", {"C13": "A1.members"}, [(BU, "class DictVSpace(ContainerVSpace):\n    def _values(self, x):", "class DictVSpace(ContainerVSpace):\n    def __eq__(self, other):\n        return self.shape == getattr(other, \"shape\", None)\n\n    def _values(self, x):")]),
+    ("dictbox-iterates-in-reverse", {"C06": "A14.containers", "C12": "A14.containers"}, [(BU, "    def __iter__(self):\n        return self._value.__iter__()", "    def __iter__(self):\n        return reversed(self._value)")]),
+    ("trace-installs-a-warnings-filter", {"C19": "A11.state"}, [(TR, "            warnings.warn(\"Output seems independent of input.\")", "            warnings.simplefilter(\"once\")\n            warnings.warn(\"Output seems independent of input.\")")]),
+    ("matmul-adjoint-fast-path-skips-kind-cast", {"C05": "A4.match", "C09": "A4.match"}, [(NV, "    _, A_ndim, _, _ = A_meta\n    if A_ndim == 1:\n        G = anp.expand_dims(G, anp.ndim(G) - 1)", "    _, A_ndim, _, _ = A_meta\n    if A_ndim == 2 and B_ndim == 2:\n        return anp.matmul(G, anp.swapaxes(B, 0, 1))\n    if A_ndim == 1:\n        G = anp.expand_dims(G, anp.ndim(G) - 1)")]),
     ("container-space-loses-subval", {"C12": "A1.spaces"}, [(BU, "    def _subval(self, xs, idx, x):\n        d = dict(xs.items())\n        d[idx] = x\n        return d\n", "")]),
 ]
 
 BENIGN = [
+    ("dict-space-equality-written-out", [(BU, "class DictVSpace(ContainerVSpace):\n    def _values(self, x):", "class DictVSpace(ContainerVSpace):\n    def __eq__(self, other):\n        return type(self) == type(other) and self.shape == other.shape\n\n    def _values(self, x):")]),
+    ("dictbox-iter-builtin", [(BU, "    def __iter__(self):\n        return self._value.__iter__()", "    def __iter__(self):\n        return iter(self._value)")]),
+    ("trace-warning-under-catch-warnings", [(TR, "            warnings.warn(\"Output seems independent of input.\")", "            with warnings.catch_warnings():\n                warnings.simplefilter(\"always\")\n                warnings.warn(\"Output seems independent of input.\")")]),
+    ("det-vjp-einsum-spelling", [(LA, "defvjp(det, lambda ans, x: lambda g: add2d(g) * add2d(ans) * T(inv(x)))", "defvjp(det, lambda ans, x: lambda g: add2d(g * ans) * T(inv(x)))")]),
     ("tril-vjp-k-positional", [(NV, "defvjp(anp.tril, lambda ans, x, k=0: lambda g: anp.tril(g, k=k))", "defvjp(anp.tril, lambda ans, x, k=0: lambda g: anp.tril(g, k))")]),
     ("roll-vjp-def-form", [(NV, "defvjp(anp.roll, lambda ans, x, shift, axis=None: lambda g: anp.roll(g, -shift, axis=axis))", "def _grad_roll(ans, x, shift, axis=None):\n    back = -shift\n    if axis is None:\n        return lambda g: anp.reshape(anp.roll(anp.ravel(g), back, 0), anp.shape(x))\n    return lambda g: anp.roll(g, back, axis)\n\n\ndefvjp(anp.roll, _grad_roll)")]),
     ("chooser-jvp-scalar-test-by-ndim", [(NJ, "    if anp.isscalar(x):\n        return g\n    if not keepdims:", "    if anp.ndim(x) == 0:\n        return g\n    if not keepdims:")]),
